@@ -37,9 +37,10 @@ theorem gs_safe_iff (gs : GS) :
   simp [GS.safe]
 
 theorem env_safe_iff (e : Env) :
-    Env.safe e = true ↔ (∀ gs ∈ e.gss, GS.safe gs = true) ∧ (∀ o, e.docW = some o → o.owned = false) := by
+    Env.safe e = true ↔ (∀ gs ∈ e.gss, GS.safe gs = true) ∧ (∀ o, e.docW = some o → o.owned = false)
+      ∧ e.instStale = false := by
   unfold Env.safe
-  cases h : e.docW <;> simp
+  cases h : e.docW <;> simp [and_assoc]
 
 theorem filterWrites_safe (name : String) (fields : List GField) (lk : Option (String × Bool)) (gs : GS)
     (h : GS.safe gs = true) : ∀ w ∈ filterWrites name fields lk gs, w.cell.obj.owned = false := by
@@ -83,14 +84,25 @@ theorem exec_safe (inp : Inp) (st : Stage) (e : Env) (he : Env.safe e = true) (h
   | explode _ _ => simp [Stage.reaches] at hs
   | dottedCircle _ => simp [Stage.reaches] at hs
   | math _ => simp [Stage.reaches] at hs
-  | instantiate => exact ⟨by simp [exec], by rw [env_safe_iff]; exact he⟩
-  | refresh => exact ⟨by simp [exec], by rw [env_safe_iff]; exact he⟩
-  | propagateI _ => simp [Stage.reaches] at hs
+  | instantiate stale =>
+    simp only [Stage.reaches] at hs
+    subst hs
+    exact ⟨by simp [exec], by rw [env_safe_iff]; exact ⟨he.1, he.2.1, rfl⟩⟩
+  | refresh => exact ⟨by simp [exec], by rw [env_safe_iff]; exact ⟨he.1, he.2.1, rfl⟩⟩
+  | propagateI src =>
+    refine ⟨?_, by rw [env_safe_iff]; simp only [exec]; split <;> exact he⟩
+    intro w hw
+    simp only [exec] at hw
+    cases hg : e.gss[src]? with
+    | none => simp [hg] at hw
+    | some gs =>
+      simp only [hg, he.2.2, Bool.false_eq_true, if_false, append_nil] at hw
+      exact filterWrites_safe _ _ _ gs (he.1 gs (mem_of_getElem? hg)) w hw
   | otf _ => exact ⟨by simp [exec], by rw [env_safe_iff]; exact he⟩
   | dsCopy =>
     refine ⟨by simp [exec], ?_⟩
     rw [env_safe_iff]
-    refine ⟨he.1, ?_⟩
+    refine ⟨he.1, ?_, he.2.2⟩
     intro o ho
     simp only [exec, Option.some.injEq] at ho
     subst ho; rfl
@@ -104,7 +116,7 @@ theorem exec_safe (inp : Inp) (st : Stage) (e : Env) (he : Env.safe e = true) (h
       | some o =>
         simp only [hd, mem_map] at hw
         obtain ⟨p, _, rfl⟩ := hw
-        exact he.2 o hd
+        exact he.2.1 o hd
     · simp only [exec]
       cases hd : e.docW <;> (rw [env_safe_iff]; exact he)
   | reset =>
@@ -204,14 +216,14 @@ theorem NR_filter (srcs : List Nat) (n : String) (f : List GField) (k : Option (
     NR [Stage.filter srcs n f k] := NR_single rfl
 theorem NR_otf (n : String) : NR [Stage.otf n] := NR_single rfl
 
-theorem stageOfSpec_clean (ds : Bool) (i : Nat) (s : FSpec)
-    (h : (s.kind != DC && s.kind != EXPLODE && !(ds && s.kind == "PropagateAnchorsFilter")) = true) :
+theorem stageOfSpec_clean (ds : Bool) (i : Nat) (s : FSpec) (h : (s.kind != DC && s.kind != EXPLODE) = true) :
     (stageOfSpec ds i s).reaches = false := by
-  simp only [Bool.and_eq_true, bne_iff_ne, ne_eq, Bool.not_eq_true'] at h
+  simp only [Bool.and_eq_true, bne_iff_ne, ne_eq] at h
   unfold stageOfSpec
-  have h1 : (s.kind == DC) = false := by simpa using h.1.1
-  have h2 : (s.kind == EXPLODE) = false := by simpa using h.1.2
-  simp [h1, h2, h.2, Stage.reaches]
+  have h1 : (s.kind == DC) = false := by simpa using h.1
+  have h2 : (s.kind == EXPLODE) = false := by simpa using h.2
+  simp only [h1, h2, Bool.false_eq_true, if_false]
+  split <;> rfl
 
 theorem zipLongest_NR (ls : List (List Stage)) (n : Nat) (h : ∀ l ∈ ls, NR l) : NR (zipLongest ls n) := by
   induction n generalizing ls with
@@ -231,8 +243,7 @@ theorem zipLongest_NR (ls : List (List Stage)) (n : Nat) (h : ∀ l ∈ ls, NR l
       exact h l' hl' st (mem_of_mem_tail hst)
 
 theorem specs_NR (cfg : Cfg) (fd : FontD) (i : Nat) (p : FSpec → Bool)
-    (h : (customFilters cfg fd).all (fun s => s.kind != DC && s.kind != EXPLODE
-          && !(isDS cfg.fn && s.kind == "PropagateAnchorsFilter")) = true) :
+    (h : (customFilters cfg fd).all (fun s => s.kind != DC && s.kind != EXPLODE) = true) :
     NR (((customFilters cfg fd).filter p).map (stageOfSpec (isDS cfg.fn) i)) := by
   intro st hst
   simp only [mem_map, mem_filter] at hst
@@ -241,8 +252,7 @@ theorem specs_NR (cfg : Cfg) (fd : FontD) (i : Nat) (p : FSpec → Bool)
 
 theorem cleanFont_parts {cfg : Cfg} {fd : FontD} (h : cleanFont cfg fd = true) :
     fd.lib.mathPrefix = false ∧ colourTrigger fd = false ∧
-    (customFilters cfg fd).all (fun s => s.kind != DC && s.kind != EXPLODE
-      && !(isDS cfg.fn && s.kind == "PropagateAnchorsFilter")) = true := by
+    (customFilters cfg fd).all (fun s => s.kind != DC && s.kind != EXPLODE) = true := by
   simp only [cleanFont, Bool.and_eq_true, Bool.not_eq_true'] at h
   exact ⟨h.1.1, h.1.2, h.2⟩
 
@@ -297,7 +307,7 @@ theorem fromLayers_NR (inp : Inp) (h : inp.cfg.inplace = false) : NR (fromLayers
   obtain ⟨s, _, rfl⟩ := hst
   simp [Stage.reaches, h]
 
-theorem interpPre_NR (inp : Inp) (ttf : Bool) (h : cleanCfg inp = true) : NR (interpPre inp ttf) := by
+theorem interpPre_NR (inp : Inp) (ttf : Bool) (h : cleanCfg inp = true) : NR (interpPre false inp ttf) := by
   obtain ⟨hi, hf⟩ := cleanCfg_parts h
   have hpre : ∀ l ∈ perSource inp (preStages inp), NR l :=
     perSource_NR inp _ (fun s hs i => specs_NR _ _ _ _ (cleanFont_parts (hf s hs)).2.2)
@@ -308,7 +318,8 @@ theorem interpPre_NR (inp : Inp) (ttf : Bool) (h : cleanCfg inp = true) : NR (in
       unfold explodeStage; simp [(cleanFont_parts (hf s hs)).2.1]; exact NR_nil)
   unfold interpPre
   simp only []
-  refine NR_append (NR_append (NR_append (NR_append (NR_append (NR_append (fromLayers_NR inp hi) ?_) ?_) ?_) ?_) ?_) ?_
+  refine NR_append (NR_append (NR_append (NR_append (NR_append (NR_append (NR_append (fromLayers_NR inp hi) ?_) ?_) ?_) ?_) ?_) ?_) ?_
+  · exact NR_ite (NR_single (by simp [Stage.reaches, hi])) NR_nil
   · exact NR_ite (NR_filter _ _ _ _) NR_nil
   · exact zipLongest_NR _ _ hpre
   · exact NR_ite (NR_filter _ _ _ _) NR_nil
@@ -334,27 +345,27 @@ theorem assignFont_NR (l : String) (i : Nat) : NR (assignFont l i) := NR_single 
 theorem C07_signatures (inp : Inp) (h : cleanCfg inp = true) : noReach inp = true := by
   have hi := (cleanCfg_parts h).1
   have key : NR (pipeline inp) := by
-    unfold pipeline
+    unfold pipeline pipelineG
     simp only [hi, Bool.false_eq_true, if_false]
     cases inp.cfg.fn with
     | ttf => exact single_NR inp true h
     | otf => exact single_NR inp false h
     | ittfs => exact NR_append (interpPre_NR inp true h) (interpCompile_NR inp _ _ (fun _ => NR_nil) h)
     | ittfsDS =>
-      exact NR_append (NR_append (NR_cons rfl (NR_single rfl)) (interpPre_NR inp true h))
+      exact NR_append (NR_append (NR_single rfl) (interpPre_NR inp true h))
         (interpCompile_NR inp _ _ (assignFont_NR _) h)
     | iotfsDS =>
-      exact NR_append (NR_append (NR_cons rfl (NR_single rfl)) (interpPre_NR inp false h))
+      exact NR_append (NR_append (NR_single rfl) (interpPre_NR inp false h))
         (interpCompile_NR inp _ _ (assignFont_NR _) h)
     | vttf =>
       refine NR_append (NR_append (NR_append ?_ (interpPre_NR inp true h))
         (interpCompile_NR inp _ _ (assignFont_NR _) h)) ?_
-      · exact NR_cons rfl (NR_cons rfl (NR_single rfl))
+      · exact NR_cons rfl (NR_single rfl)
       · exact NR_cons rfl (NR_cons rfl (NR_single rfl))
     | vcff2 =>
       refine NR_append (NR_append (NR_append ?_ (interpPre_NR inp false h))
         (interpCompile_NR inp _ _ (assignFont_NR _) h)) ?_
-      · exact NR_cons rfl (NR_cons rfl (NR_single rfl))
+      · exact NR_cons rfl (NR_single rfl)
       · exact NR_cons rfl (NR_cons rfl (NR_single rfl))
   unfold noReach
   rw [all_eq_true]
@@ -378,13 +389,14 @@ theorem C07_main (inp : Inp) (h : cleanCfg inp = true) (n k : Nat) (s : Store) (
 def Stage.aliasing : Stage → Bool
   | .fromLayer _ _ copy => !copy
   | .dsAlias => true
+  | .instantiate stale => stale
   | _ => false
 
 /-- invariant: a caller-owned object sits in a glyph set only if ExplodeColorLayerGlyphsFilter put it there -/
 def GS.tagged (gs : GS) : Prop :=
   (∀ en ∈ gs.entries, en.obj.owned = true → en.via = EXPLODE) ∧ gs.lib.owned = false
 def Env.tagged (e : Env) : Prop :=
-  (∀ gs ∈ e.gss, GS.tagged gs) ∧ (∀ o, e.docW = some o → o.owned = false)
+  (∀ gs ∈ e.gss, GS.tagged gs) ∧ (∀ o, e.docW = some o → o.owned = false) ∧ e.instStale = false
 
 /-- accumulator invariant of `copyGlyph` / `explodeGS` -/
 def AccOK (acc : List Entry × List Write) : Prop :=
@@ -562,8 +574,11 @@ theorem exec_tagged (inp : Inp) (st : Stage) (e : Env) (he : Env.tagged e) (hs :
       split at hw
       · simp at hw; subst hw; exact mem_leakStages_MATH
       · cases hw
-  | instantiate => exact ⟨by simp [exec], he⟩
-  | refresh => exact ⟨by simp [exec], he⟩
+  | instantiate stale =>
+    simp only [Stage.aliasing] at hs
+    subst hs
+    exact ⟨by simp [exec], he.1, he.2.1, rfl⟩
+  | refresh => exact ⟨by simp [exec], he.1, he.2.1, rfl⟩
   | propagateI src =>
     simp only [exec]
     cases hg : e.gss[src]? with
@@ -578,14 +593,10 @@ theorem exec_tagged (inp : Inp) (st : Stage) (e : Env) (he : Env.tagged e) (hs :
         · simp only [] at ho ⊢
           rw [tagOf_owned _ en (hgs.1 en hen ho)]; exact mem_leakStages_EXPLODE
         · simp at hw
-      · split at hw
-        · simp only [instLeaks, mem_map] at hw
-          obtain ⟨g, _, rfl⟩ := hw
-          simp [leakStages]
-        · cases hw
+      · simp [he.2.2] at hw
   | otf _ => exact ⟨by simp [exec], he⟩
   | dsCopy =>
-    refine ⟨by simp [exec], he.1, ?_⟩
+    refine ⟨by simp [exec], he.1, ?_, he.2.2⟩
     intro o ho
     simp only [exec, Option.some.injEq] at ho
     subst ho; rfl
@@ -600,9 +611,9 @@ theorem exec_tagged (inp : Inp) (st : Stage) (e : Env) (he : Env.tagged e) (hs :
       simp only [mem_map] at hw
       obtain ⟨p, _, rfl⟩ := hw
       simp only [] at ho
-      rw [he.2 o hd] at ho; cases ho
+      rw [he.2.1 o hd] at ho; cases ho
   | reset =>
-    refine ⟨by simp [exec], ?_, ?_⟩
+    refine ⟨by simp [exec], ?_, ?_, rfl⟩
     · intro gs hgs; simp [exec] at hgs
     · intro o ho; simp [exec] at ho
 
@@ -705,14 +716,15 @@ theorem perSource_NA (inp : Inp) (g : Nat → Nat → List Stage) (h : ∀ i f, 
   obtain ⟨⟨s, i⟩, _, rfl⟩ := hl
   exact h i s.1
 
-theorem interpPre_NA (inp : Inp) (ttf : Bool) (h : inp.cfg.inplace = false) : NA (interpPre inp ttf) := by
+theorem interpPre_NA (inp : Inp) (ttf : Bool) (h : inp.cfg.inplace = false) : NA (interpPre false inp ttf) := by
   unfold interpPre
   simp only []
-  refine NA_append (NA_append (NA_append (NA_append (NA_append (NA_append ?_ ?_) ?_) ?_) ?_) ?_) ?_
+  refine NA_append (NA_append (NA_append (NA_append (NA_append (NA_append (NA_append ?_ ?_) ?_) ?_) ?_) ?_) ?_) ?_
   · intro st hst
     simp only [fromLayers, mem_map] at hst
     obtain ⟨s, _, rfl⟩ := hst
     simp [Stage.aliasing, h]
+  · exact NA_ite (NA_single (by simp [Stage.aliasing, h])) NA_nil
   · exact NA_ite (NA_filter _ _ _ _) NA_nil
   · exact zipLongest_NA _ _ (perSource_NA inp _ (fun i f => specsNA _ _ _))
   · exact NA_ite (NA_filter _ _ _ _) NA_nil
@@ -730,27 +742,27 @@ theorem interpCompile_NA (inp : Inp) (feat : Bool) (assign : Nat → List Stage)
 
 theorem pipeline_NA (inp : Inp) (hi : inp.cfg.inplace = false) : NA (pipeline inp) := by
   have ha : ∀ l i, NA (assignFont l i) := fun l i => NA_single rfl
-  unfold pipeline
+  unfold pipeline pipelineG
   simp only [hi, Bool.false_eq_true, if_false]
   cases inp.cfg.fn with
   | ttf => exact single_NA inp true hi
   | otf => exact single_NA inp false hi
   | ittfs => exact NA_append (interpPre_NA inp true hi) (interpCompile_NA inp _ _ (fun _ => NA_nil))
   | ittfsDS =>
-    exact NA_append (NA_append (NA_cons rfl (NA_single rfl)) (interpPre_NA inp true hi)) (interpCompile_NA inp _ _ (ha _))
+    exact NA_append (NA_append (NA_single rfl) (interpPre_NA inp true hi)) (interpCompile_NA inp _ _ (ha _))
   | iotfsDS =>
-    exact NA_append (NA_append (NA_cons rfl (NA_single rfl)) (interpPre_NA inp false hi)) (interpCompile_NA inp _ _ (ha _))
+    exact NA_append (NA_append (NA_single rfl) (interpPre_NA inp false hi)) (interpCompile_NA inp _ _ (ha _))
   | vttf =>
     refine NA_append (NA_append (NA_append ?_ (interpPre_NA inp true hi)) (interpCompile_NA inp _ _ (ha _))) ?_
-    · exact NA_cons rfl (NA_cons rfl (NA_single rfl))
+    · exact NA_cons rfl (NA_single rfl)
     · exact NA_cons rfl (NA_cons rfl (NA_single rfl))
   | vcff2 =>
     refine NA_append (NA_append (NA_append ?_ (interpPre_NA inp false hi)) (interpCompile_NA inp _ _ (ha _))) ?_
-    · exact NA_cons rfl (NA_cons rfl (NA_single rfl))
+    · exact NA_cons rfl (NA_single rfl)
     · exact NA_cons rfl (NA_cons rfl (NA_single rfl))
 
 theorem env0_tagged (inp : Inp) : Env.tagged (env0 inp) := by
-  refine ⟨?_, ?_⟩
+  refine ⟨?_, ?_, rfl⟩
   · intro gs h; simp [env0] at h
   · intro o h; simp [env0] at h
 
@@ -814,11 +826,31 @@ def witnessPropagate : Inp :=
                       lib := { filters := [⟨"PropagateAnchorsFilter", true⟩] } }
   { cfg := { fn := .iotfsDS, sources := [(0, none), (1, none)], dsNamed := [true, true] }, fonts := [fd, fd] }
 
-theorem witnessPropagate_leaks :
-    (leaksAll witnessPropagate).map (fun w => (w.cell, w.stage)) =
+/-- **the defect repaired by /repo commit 61a81a2** (OLD pipeline, kept for the record): before that commit the
+    Instantiator kept reading the caller's layers until a filter reported a change, and PropagateAnchorsIFilter
+    appended the propagated anchors to the caller's mixed glyph `one` in both masters — the property was false -/
+theorem witnessPropagate_old_leaks :
+    (leaksOld witnessPropagate).map (fun w => (w.cell, w.stage)) =
       [(⟨.glyph 0 "public.default" "one", "anchors"⟩, PROPAGATE), (⟨.glyph 1 "public.default" "one", "anchors"⟩, PROPAGATE)] := by
   decide
-theorem witnessPropagate_fails : holds witnessPropagate ((leaksAll witnessPropagate).map (·.cell)) = false := by decide
+theorem witnessPropagate_old_fails : holds witnessPropagate ((leaksOld witnessPropagate).map (·.cell)) = false := by decide
+
+/-- … and the CURRENT pipeline on the same witness (propagateAnchors filter, designspace entry point): clean
+    configuration, so every caller-owned cell is unchanged after any prefix and any number of calls, and the
+    predicted leak set is empty -/
+theorem witnessPropagate_clean : cleanCfg witnessPropagate = true := by decide
+theorem witnessPropagate_now (n k : Nat) (s : Store) (c : Cell) (hc : c.obj.owned = true) :
+    applyAll (trace witnessPropagate k) s c = s c ∧
+    applyAll (run witnessPropagate ((history witnessPropagate n).take k) (env0 witnessPropagate)).1 s c = s c ∧
+    leaks witnessPropagate k = [] :=
+  C07_main witnessPropagate witnessPropagate_clean n k s c hc
+theorem witnessPropagate_holds : holds witnessPropagate ((leaksAll witnessPropagate).map (·.cell)) = true :=
+  C07_holds_model _ _ (C07_signatures _ witnessPropagate_clean)
+/-- the filter stage is really there (the theorem is not about an empty pipeline) -/
+example : (pipeline witnessPropagate).any (fun st => match st with | .propagateI _ => true | _ => false) = true := by decide
+/-- with inplace=True the Instantiator legitimately reads (and the filter reaches) the sources -/
+example : ((leaksAll { witnessPropagate with cfg := { witnessPropagate.cfg with inplace := true } }).any
+    (fun w => w.stage == PROPAGATE)) = true := by decide
 
 /-- the same fonts and filter through the list API (no Instantiator): nothing leaks -/
 example : leaksAll { witnessPropagate with cfg := { witnessPropagate.cfg with fn := .ittfs } } = [] := by decide
